@@ -313,3 +313,73 @@ func C13Resubscribe() {
 	}
 	sym.Reach("resubscribe-done")
 }
+
+// zzEmitterSetup: a real server with an emitter object (signals 200/201, property 300) and a real
+// client proxy to it over an in-process pipe.
+func zzEmitterSetup() (*zzObj, Proxy, func() int) {
+	auth := &zzAuth{user: "u", token: "t"}
+	l := newZZListener()
+	srv, _ := StandAloneServer(l, auth, PrivateNamespace())
+	o := &zzObj{}
+	meta := object.MetaObject{Description: "zz",
+		Signals:    map[uint32]object.MetaSignal{200: {Uid: 200, Name: "sig", Signature: "(i)"}, 201: {Uid: 201, Name: "other", Signature: "(i)"}},
+		Properties: map[uint32]object.MetaProperty{300: {Uid: 300, Name: "level", Signature: "i"}}}
+	o.front = NewBasicObject(o, meta, func(string, []byte) error { return nil })
+	service, _ := srv.NewService("emitter", o.front)
+	cs, ss := zzPipe()
+	l.conns <- ss
+	sym.Quiesce()
+	ch := NewChannel(net.NewEndPoint(cs), ClientCap("u", "t"))
+	sym.Assert(ch.Authenticate() == nil, "client-authenticated")
+	proxy := NewProxy(NewClient(ch), object.FullMetaObject(meta), service.ServiceID(), 1)
+	front := o.front.(*stubObject)
+	registrations := func() int {
+		front.signal.signalsMutex.RLock()
+		defer front.signal.signalsMutex.RUnlock()
+		return len(front.signal.signals)
+	}
+	return o, proxy, registrations
+}
+
+// C13ConcurrentSubscribe: two local subscribers subscribe to the same signal on the same proxy at
+// the same time: one remote registration, and each gets each event exactly once.
+func C13ConcurrentSubscribe() {
+	o, proxy, registrations := zzEmitterSetup()
+	type sub struct {
+		cancel func()
+		events chan []byte
+		err    error
+	}
+	subs := make([]*sub, 2)
+	done := make(chan bool, 2)
+	for i := range subs {
+		subs[i] = &sub{}
+		go func(s *sub) {
+			s.cancel, s.events, s.err = proxy.SubscribeID(200)
+			done <- true
+		}(subs[i])
+	}
+	<-done
+	<-done
+	sym.Quiesce()
+	sym.Assert(subs[0].err == nil && subs[1].err == nil, "subscribe-ok")
+	sym.Assert(registrations() == 1, "one-remote-registration-for-two-local-subscribers")
+	data := sym.Bytes("emit-data", 1)
+	sym.Assert(o.front.UpdateSignal(200, data) == nil, "emit-ok")
+	sym.Quiesce()
+	for _, s := range subs {
+		if s.err != nil {
+			continue
+		}
+		got, _ := zzDrainNow(s.events)
+		sym.Assert(len(got) == 1, "event-exactly-once")
+	}
+	for _, s := range subs {
+		if s.err == nil {
+			s.cancel()
+			sym.Quiesce()
+		}
+	}
+	sym.Assert(registrations() == 0, "remote-registration-left-behind")
+	sym.Reach("concurrent-subscribe-done")
+}
